@@ -250,7 +250,7 @@ pub fn run(prop: &str, tier: &str, replay: Option<&str>) -> i32 {
                 }
             }
         }
-        let sec = Section::new("sweep/dn-type x string-kind x value-shape", "every attribute type (6 standard, serialNumber and emailAddress as custom OIDs) x every string kind x 21 value shapes (empty, one/two/three letters, digits, mixed, mail-like, ip-like; NUL, blank, line break, dot, U+FEFF at either edge), alone and after another attribute, self-signed and issuer-signed");
+        let sec = Section::new("sweep/dn-type x string-kind x value-shape", "every attribute type (6 standard, serialNumber and emailAddress as custom OIDs) x every string kind x 27 value shapes (empty, one/two/three letters, digits, mixed, mail-like, ip-like; NUL, blank, line break, dot, U+FEFF at either edge), alone and after another attribute, self-signed and issuer-signed");
         run::sweep_cases(&sec, &cases, &|c| format!("dn={:?}", c.0), &|c| {
             let mut st = CertState::default();
             st.dn = c.clone();
